@@ -67,6 +67,22 @@ def exc_is(cls: str, handler: str) -> bool:
     return False
 
 
+def has_quantifier(f) -> bool:
+    seen = set()
+    stack = [f]
+    while stack:
+        t = stack.pop()
+        i = t.get_id()
+        if i in seen:
+            continue
+        seen.add(i)
+        if z3.is_quantifier(t):
+            return True
+        if z3.is_app(t):
+            stack.extend(t.children())
+    return False
+
+
 class Obl:
     __slots__ = ("oid", "kind", "pc", "formula", "note", "path", "meta")
 
@@ -159,7 +175,8 @@ class PathCore:
         if z3.is_false(f):
             raise Halt()
         self.pc.append(f)
-        self.feas.add(f)
+        if not has_quantifier(f):
+            self.feas.add(f)
 
     def feasible(self, cond) -> bool:
         self.solver_calls += 1
